@@ -546,3 +546,17 @@ Lemma no_root_b_true r' s : no_root_b r' s = true -> no_root r' s.
 Proof.
   unfold no_root_b, no_root. rewrite forallb_forall. intros H e He E. specialize (H e He). rewrite E, N.eqb_refl in H. discriminate.
 Qed.
+
+(* any version number: unpublished on both sides, or published and local *)
+Lemma snapshot_copy_any s s' r r' v :
+  (forall p, get s' (r', p) = get s (r, p)) ->
+  (forall m, get s (r, RManifest v) = Some (CMan m) -> man_local m = true) ->
+  snapshot r' v s' = snapshot r v s.
+Proof.
+  intros H L. destruct (get s (r, RManifest v)) as [[m| |]|] eqn:G.
+  - eapply snapshot_copy; [exact G | apply L; reflexivity | exact H].
+  - unfold snapshot, open. rewrite H, G. reflexivity.
+  - unfold snapshot, open. rewrite H, G. reflexivity.
+  - unfold snapshot, open. rewrite H, G. reflexivity.
+Qed.
+
